@@ -175,6 +175,8 @@ func (s *seqRun) guarded(desc string, f func()) bool {
 		return ok
 	}
 	done := make(chan string, 1)
+	var m0, m1 runtime.MemStats
+	runtime.ReadMemStats(&m0)
 	go func() {
 		defer func() {
 			if r := recover(); r != nil {
@@ -191,6 +193,13 @@ func (s *seqRun) guarded(desc string, f func()) bool {
 			s.emitf("# %s :: %s", msg, desc)
 			s.dead = true
 			return false
+		}
+		// what one request may allocate is bounded by what it may transfer, whatever count,
+		// offset or size it names (the background shrinker's allocations fall into the same
+		// window; they are small)
+		runtime.ReadMemStats(&m1)
+		if d := m1.TotalAlloc - m0.TotalAlloc; d > memPerRequest {
+			s.oracle("C11", "memory-per-request", fmt.Sprintf("a request allocated %d bytes (bound %d): %s", d, uint64(memPerRequest), trunc(desc)))
 		}
 		return true
 	case <-time.After(s.opTimeout):
